@@ -581,6 +581,9 @@ class _Canon(ast.NodeTransformer):
         return n
 
 
+_RAW_AST: dict = {}
+
+
 class SourceTree:
     """Read-only view of the repository working tree, with an in-memory overlay
     (path -> text) used to analyse mutants without touching the disk."""
@@ -641,10 +644,38 @@ class SourceTree:
     def pyast(self, rel: str) -> ast.Module:
         if rel not in self._ast:
             try:
-                self._ast[rel] = _Canon().visit(ast.parse(self.read(rel), filename=rel))
+                mod = ast.parse(self.read(rel), filename=rel)
+                if rel.startswith("naunet/"):
+                    # reads of class-level constants are the literals they name (normalize.class_constants), whatever the spelling
+                    from .normalize import inline_class_constants
+                    mod = inline_class_constants(mod, self.class_constants())
+                self._ast[rel] = _Canon().visit(mod)
             except SyntaxError as e:
                 raise AnalysisError(f"cannot parse {rel}: {e}", (rel, e.lineno or 0))
         return self._ast[rel]
+
+    def class_constants(self) -> dict:
+        """{attribute name: literal} of the package's class-level constants (normalize.class_constants), from a raw parse of every
+        module of naunet/ (files that do not parse contribute nothing here; pyast reports them)"""
+        if "_cconsts" not in self.__dict__:
+            from .normalize import class_constants
+            mods = []
+            for f in self.files():
+                if f.endswith(".py") and f.startswith("naunet/"):
+                    try:
+                        if f in self.overlay:
+                            mods.append(ast.parse(self.read(f), filename=f))
+                        else:
+                            # files on disk: one raw parse per process (the trees are only read), shared by all overlays
+                            p = os.path.join(self.root, f)
+                            k = (p, os.path.getmtime(p))
+                            if k not in _RAW_AST:
+                                _RAW_AST[k] = ast.parse(self.read(f), filename=f)
+                            mods.append(_RAW_AST[k])
+                    except (SyntaxError, AnalysisError, OSError):
+                        pass
+            self.__dict__["_cconsts"] = class_constants(mods)
+        return self.__dict__["_cconsts"]
 
     def seg(self, rel: str, node: ast.AST) -> str:
         return ast.get_source_segment(self.read(rel), node) or ""
